@@ -32,6 +32,7 @@ man = {
     },
     "engines": [
         {"name": "choice-stream engine + forked executor", "path": "/verif/engine/eng.hpp", "serves_properties": sorted(CHECKS), "kind_free_text": "property-based testing: typed draws from a seeded/fuzzer byte stream -> textual IR -> executed in a fresh forked process against an explicit oracle; delta-debugging shrinker on the IR; replay files"},
+        {"name": "deterministic scheduler", "path": "/verif/harness/sched.cc", "serves_properties": ["C02", "C08", "C09", "C10", "C14"], "kind_free_text": "virtual threads (real pthreads, one runs at a time); scheduling points at every mi_atomic operation through the MI_VERIF_HOOKS header; generated preemptions / priorities / spurious weak-CAS failures; hang detection"},
         {"name": "OS shim", "path": "/verif/engine/vf_shim.c", "serves_properties": ["C07", "C11", "C13", "C15", "C18"], "kind_free_text": "fault injection / recording of mmap, munmap, mprotect, madvise; virtual clock; seeded getrandom"},
     ],
     "checks": checks,
